@@ -168,7 +168,7 @@ func c02(c *core.Ctx) {
 		c.EndRule()
 	}
 	// ---------------------------------------------------------------- R4
-	if c.Rule("R4", "no silently dropped error on the response path: every discarded error result in library code is in the justified table", 10) {
+	if c.Rule("R4", "no silently dropped error on the response path: every discarded error result in library code is in the justified table", 8) {
 		type site struct {
 			fn     *ssa.Function
 			callee string
